@@ -63,6 +63,9 @@ func (w Resolver) Resolve(id did.DID, _ *resolver.ResolveMetadata) (*did.Documen
 		// if the id doesn't contain a path we set '/.well-known/did.json' s path
 		baseURL.Path = "/.well-known"
 	}
+	// Keep the escaped form of the path (e.g. %2F in a path segment) in sync with Path, otherwise it is discarded
+	// and the document is fetched from another path than the DID specifies.
+	baseURL.RawPath = baseURL.EscapedPath() + "/did.json"
 	baseURL.Path = baseURL.Path + "/did.json"
 	targetURL := baseURL.String()
 
